@@ -90,7 +90,7 @@ def oracle_c09(h, cfg_maxid):
 def quiescent(h):
     """every sent request answered, nothing borrowed and unsent, every unit handed back, connection alive"""
     c = h.conn
-    return (not h.wire and not h.held and h.owed == 0 and not c.is_defunct and not c.is_closed
+    return (not h.wire and not h.held and h.owed == 0 and not h.pending_tasks() and not c.is_defunct and not c.is_closed
             and not c.orphaned_request_ids and not c._continuous_paging_sessions and not h.nonbenign)
 
 
@@ -130,6 +130,8 @@ class Gen(object):
                 out.append({'a': 'return'})
             if p.get('cp') and rng.random() < 0.15:
                 out.insert(0, {'a': 'cp_new', 'sess': 100 + self.fresh()})
+            if p.get('reprep') and rng.random() < p['reprep'] and self.tok < self.nreq + 3:
+                out.append({'a': 'reprepare', 'r2': self.fresh()})
         if depth == 0 and rng.random() < p.get('nest', 0.25):
             k = rng.random()
             if k < 0.35 and self.tok < self.nreq:
@@ -161,8 +163,10 @@ class Gen(object):
         sent = [t for t, d in h.tokens.items() if d.get('id') is not None and d.get('kind') in ('query', 'manual')]
         if sent:
             choices.append(('timeout', 2))
-        if h.owed_tokens:
+        if [t for t in h.owed_tokens if h.tokens.get(t, {}).get('kind') != 'prepare']:
             choices.append(('return', 3))
+        if h.pending_tasks():
+            choices.append(('run_tasks', 3))
         if p.get('fail'):
             choices.append(('fail', p['fail']))
         if p.get('busy'):
@@ -197,7 +201,9 @@ class Gen(object):
             act = {'a': 'timeout', 'r': rng.choice(sent), 'live': (rng.random() > p.get('nopool', 0.0)),
                    'after_pop': self.nested_choice('after_pop')}
         elif a == 'return':
-            act = {'a': 'return', 'r': rng.choice(sorted(h.owed_tokens))}
+            act = {'a': 'return', 'r': rng.choice(sorted(t for t in h.owed_tokens if h.tokens.get(t, {}).get('kind') != 'prepare'))}
+        elif a == 'run_tasks':
+            act = {'a': 'run_tasks'}
         elif a == 'fail':
             act = {'a': rng.choice(['defunct', 'close']), 'after_flag': self.nested_choice('after_flag', depth=1)}
         else:
@@ -227,8 +233,10 @@ class Gen(object):
                 act = {'a': 'respond', 'i': h.wire[0][0], 'd': 'DOk'}
             elif h.conn._continuous_paging_sessions:
                 act = {'a': 'respond', 'i': sorted(h.conn._continuous_paging_sessions)[0], 'd': 'CpLast'}
-            elif h.owed_tokens:
-                act = {'a': 'return', 'r': sorted(h.owed_tokens)[0]}
+            elif h.pending_tasks():
+                act = {'a': 'run_tasks'}
+            elif [t for t in h.owed_tokens if h.tokens.get(t, {}).get('kind') != 'prepare']:
+                act = {'a': 'return', 'r': sorted(t for t in h.owed_tokens if h.tokens.get(t, {}).get('kind') != 'prepare')[0]}
             else:
                 break
             self.run1(act)
